@@ -1,8 +1,11 @@
 package props
 
 import (
+	"bytes"
+	"compress/flate"
 	"encoding/base64"
 	"fmt"
+	"io"
 	"math/rand/v2"
 	"strings"
 
@@ -407,6 +410,60 @@ func runC20(c *mon.Ctx) {
 		sp, _, _ := NewSP(w.Now, signer)
 		cs.Nontrivial(cs.Description())
 		c20Compare(cs, sp, base64.StdEncoding.EncodeToString([]byte(doc)), false)
+	}
+
+	// (b3) byte strings that are at once a DEFLATE stream of an acceptable message and, read as they are, text in
+	// which an XML root element can be found: stored blocks whose five header bytes are printable, the second header
+	// sitting inside a quoted attribute so that the two readings differ in a root attribute, and a final empty block
+	// (NUL bytes) after the root's end. Validation cannot parse the bytes as received and accepts the inflated message.
+	for k := 0; k < c.N(8, 40); k++ {
+		cs := c.Begin("deflate-xml-polyglot", k)
+		if cs == nil {
+			continue
+		}
+		r := cs.Rand()
+		signer := w.IdP[2]
+		logout := k%2 == 1
+		attr := pick(r, []string{"InResponseTo='_attacker-chosen'", "Destination='https://evil.example/acs'"})
+		var T string
+		var err error
+		if logout {
+			l := sim.GenuineLogout(w.Env, true)
+			l.InResponseTo, l.Destination = nil, nil
+			T, err = sim.BuildLogout(l, sim.PlainStyle())
+		} else {
+			rec := sim.GenuineResponse(w.Env, 1)
+			rec.InResponseTo, rec.Destination = nil, nil
+			rec.Assertions[0].Sig = sim.DefaultSig(signer.Key, signer)
+			T, err = sim.BuildResponse(rec, sim.PlainStyle())
+		}
+		i := strings.Index(T, ">")
+		if err != nil || i < 0 {
+			cs.Inconclusive("simulator-error")
+			continue
+		}
+		const L1, L2 = 0xC240, 0xDD41 // block lengths whose little-endian bytes and complements are text: "@\u00bf=" and "A\u077e\""
+		pre := T[:i] + ` x="`
+		D := pre + strings.Repeat("A", L1-len(pre)) + ` ` + attr + ` z='">' >` + T[i+1:]
+		if len(D) > L1+L2 {
+			cs.Inconclusive("simulator-error")
+			continue
+		}
+		D += strings.Repeat(pick(r, []string{" ", "\n"}), L1+L2-len(D))
+		b0 := pick(r, []byte{0x20, 0x28, 0x30, 0x40})
+		R := append([]byte{b0, 0x40, 0xC2, 0xBF, 0x3D}, D[:L1]...)
+		R = append(append(R, 0x20, 0x41, 0xDD, 0xBE, 0x22), D[L1:]...)
+		R = append(R, 0x01, 0x00, 0x00, 0xFF, 0xFF)
+		if infl, ierr := io.ReadAll(flate.NewReader(bytes.NewReader(R))); ierr != nil || string(infl) != D {
+			cs.Inconclusive("simulator-error")
+			cs.Note("crafted stream does not inflate to the document: %v", ierr)
+			continue
+		}
+		cs.Desc("logout=%v extra-attribute-in-the-raw-reading=%s", logout, attr)
+		cs.Input(R[:min(len(R), 512)])
+		sp, _, _ := NewSP(w.Now, signer)
+		cs.Nontrivial(cs.Description())
+		c20CompareKeyed(cs, sp, base64.StdEncoding.EncodeToString(R), logout, "polyglot")
 	}
 
 	// (c) the same root shapes on a root the IdP itself signed (shapes that survive a parse/serialise cycle)
